@@ -26,7 +26,7 @@ func (r *Run) usersOf(fn *types.Func, withIfaces bool) map[string][]callSite {
 
 func init() {
 	prop("C09",
-		"(a) a shared table's cleanup deletes the file only when the ownership query returned no error and answered 'exclusively owned'; (b) the file-deleting primitives (os.Remove, S3 DeleteObject, File.Delete, delete funcs, StorageLocation.Remove) are reachable only from the table cleanups, from Checkpoint.Destroy via CheckpointList.Save, and from the obsolete-snapshot removal; (c) WAL files of dropped checkpoints are destroyed only after the new checkpoints file was written and saved; (d) every checkpoint object records the table URIs it references, so NeedsTable answers truthfully for live checkpoints; (e) every table cleanup consults an ownership / retention predicate before deleting; (f) RetainOnly moves exactly the non-retained checkpoints to the pending-removal list, refuses to retain nothing, and IncludesTable consults every retained checkpoint; plus C08.f (captured level lists are immutable) and C13.b.",
+		"(a) a shared table's cleanup deletes the file only when the ownership query returned no error and answered 'exclusively owned'; (b) the file-deleting primitives (os.Remove, S3 DeleteObject, File.Delete, delete funcs, StorageLocation.Remove) are reachable only from the table cleanups, from Checkpoint.Destroy via CheckpointList.Save, and from the obsolete-snapshot removal; (c) WAL files of dropped checkpoints are destroyed only after the new checkpoints file was written and saved; (d) every checkpoint object records the table URIs it references, so NeedsTable answers truthfully for live checkpoints; (e) every table cleanup consults an ownership / retention predicate before deleting; (f) RetainOnly moves exactly the non-retained checkpoints to the pending-removal list, refuses to retain nothing, and IncludesTable consults every retained checkpoint; (j) every link that relays a neighbour's answer (DB.NeedsTable, Operator.HandleNeedsTable, the connect handler and client) says 'not needed' without an error only with the answer of the next link; plus C08.f (captured level lists are immutable) and C13.b.",
 		"garbage-collection timing and RPC failure patterns themselves (the rules make the outcome independent of them); data races on CheckpointList (it has no lock of its own; noted in DESIGN.md, not armed).")
 
 	register(&Obligation{ID: "C09.a", Props: []string{"C09", "C06", "C01"}, Template: "guard",
